@@ -167,8 +167,9 @@ def gen_svc_case(rng, ready_heavy):
     return sx_show(e) + " ; " + ops
 
 
-def exhaustive_small():
-    """every binary/unary skeleton of depth <= 2 over 2 leaves with every regular script pair, fixed closures"""
+def exhaustive_small(full=False):
+    """every binary/unary skeleton of depth <= 2 over 2 leaves with every regular script pair, fixed closures
+    (quick: a deterministic fifth of it; thorough: all of it plus the 3-leaf skeletons)"""
     out = []
 
     def leaf(i, rs, d, ec):
@@ -177,10 +178,17 @@ def exhaustive_small():
           lambda a: ["W", "rc", a], lambda a: ["W", "ce", a], lambda a: ["W", "rf", a]]
     for ra, rb in itertools.product(REG_SCRIPTS, repeat=2):
         for ua, ub, ur in itertools.product(range(len(un)), repeat=3):
-            if (ua + 2 * ub + 3 * ur + len(ra) + len(rb)) % 5 != 0:   # thin deterministically
+            if not full and (ua + 2 * ub + 3 * ur + len(ra) + len(rb)) % 5 != 0:   # thin deterministically
                 continue
             e = un[ur](["A", un[ua](leaf(0, ra, 1, 1)), un[ub](leaf(1, rb, 2, 2))])
             out.append(sx_show(e) + " ; R R R C0 C1 C2")
+    if full:
+        for ra, rb, rc in itertools.product(REG_SCRIPTS, repeat=3):
+            for u in range(len(un)):
+                la, lb, lc = leaf(0, ra, 1, 1), leaf(1, rb, 2, 2), leaf(2, rc, 0, 0)
+                out.append(sx_show(["A", ["A", un[u](la), lb], lc]) + " ; R R R C0 C1 C2")
+                out.append(sx_show(["A", la, un[u](["A", lb, lc])]) + " ; R R R C0 C1 C2")
+                out.append(sx_show(un[u](["A", ["E", "#2", la], ["A", ["M", "+1", lb], ["W", "rd", lc]]])) + " ; R R R C0 C1 C2")
     return out
 
 
@@ -542,16 +550,209 @@ def nontrivial_fac(case, model):
     return bool(obs) and (any(e.endswith(":p") for e in obs[0][1]) or obs[0][2].startswith("E"))
 
 
+# ---------------------------------------------------------------------------------------------
+# in-Coq cross-check of a sample (guards the extraction): case/trace -> Gallina terms
+# ---------------------------------------------------------------------------------------------
+COQ_IMPORTS = """From AN Require Import Model.Svc.
+Definition fview (o : fobs) :=
+  let 'FObs r k l rest := o in
+  (match r with IPending => 0 | IReady (IOk _) => 1 | IReady (IErr e) => 2 | IPanic => 3 end,
+   match r with IReady (IErr e) => e | _ => 0 end, k, l, rest)%Z.
+"""
+
+
+def gz(x):
+    return "(%d)%%Z" % int(x)
+
+
+def gn(x):
+    return "%d%%nat" % int(x)
+
+
+def g_mapper(m):
+    return "(%s %s)" % ({"+": "MAdd", "*": "MMul", "=": "MConst", "#": "MTag"}[m[0]], gz(m[1:]))
+
+
+def g_rans(a):
+    return {"p": "RPending", "o": "ROk"}.get(a) or "(RErr %s)" % gz(a[1:])
+
+
+def g_res(r):
+    return "(%s %s)" % ("Ok" if r[0] == "O" else "Err", gz(r[1:]))
+
+
+def g_pres(r):
+    return {"P": "PPending", "p": "PPending", "X": "PPanic"}.get(r) or "(PReady %s)" % g_res(r)
+
+
+def g_beh(d, dm, ec, m):
+    return "{| b_d := %s; b_dm := %s; b_ec := %s; b_m := %s |}" % (gz(d), gz(dm), gz(ec), g_mapper(m))
+
+
+def g_rs(s):
+    return "[" + "; ".join(g_rans(a) for a in rs_list(s)) + "]"
+
+
+WK = {"bx": "WBoxed", "rd": "WRcDyn", "rc": "WRc", "bo": "WBox", "rf": "WRef", "mr": "WMutRef", "ce": "WRefCell"}
+
+
+def g_sexpr(x):
+    h = x[0]
+    if h == "L":
+        return "(Leaf %s %s (beh_of %s))" % (gn(x[1]), g_rs(x[2]), g_beh(*x[3:7]))
+    if h == "F":
+        return "(FnSvc %s (beh_of %s))" % (gn(x[1]), g_beh(*x[2:6]))
+    if h == "A":
+        return "(AndThen %s %s)" % (g_sexpr(x[1]), g_sexpr(x[2]))
+    if h == "M":
+        return "(Map %s %s)" % (g_mapper(x[1]), g_sexpr(x[2]))
+    if h == "E":
+        return "(MapErr %s %s)" % (g_mapper(x[1]), g_sexpr(x[2]))
+    if h == "P":
+        return "(ApplyFn (WPrePost %s %s) %s)" % (g_mapper(x[1]), g_mapper(x[2]), g_sexpr(x[3]))
+    if h == "K":
+        return "(ApplyFn (WSkip %s) %s)" % (g_res(x[1]), g_sexpr(x[2]))
+    if h == "W":
+        return "(Wrap %s %s)" % (WK[x[1]], g_sexpr(x[2]))
+    raise ValueError(h)
+
+
+def g_optz(s):
+    return "None" if s == "-" else "(Some %s)" % gz(s)
+
+
+def g_cfg(c):
+    return "None" if c == "u" else "(Some %s)" % gz(c)
+
+
+def g_fexpr(x):
+    h = x[0]
+    if h == "FL":
+        kind = {"d": "LDirect", "n": "LFnFactory", "c": "LFnFactoryCfg"}[x[2]]
+        fb = "{| f_d := %s; f_dm := %s; f_ec := %s; f_rs := %s; f_b := %s |}" % (gz(x[3]), gz(x[4]), gz(x[5]), g_rs(x[6]), g_beh(*x[7:11]))
+        return "(FLeafF %s %s (fbeh_of %s %s))" % (gn(x[1]), kind, gn(x[1]), fb)
+    if h == "FS":
+        return "(FFnService %s (beh_of %s))" % (gn(x[1]), g_beh(*x[2:6]))
+    if h == "FA":
+        return "(FAndThen %s %s)" % (g_fexpr(x[1]), g_fexpr(x[2]))
+    if h == "FM":
+        return "(FMapSvc (SWMap %s) %s)" % (g_mapper(x[1]), g_fexpr(x[2]))
+    if h == "FE":
+        return "(FMapSvc (SWMapErr %s) %s)" % (g_mapper(x[1]), g_fexpr(x[2]))
+    if h == "FP":
+        return "(FMapSvc (SWApplyFn (WPrePost %s %s)) %s)" % (g_mapper(x[1]), g_mapper(x[2]), g_fexpr(x[3]))
+    if h == "FK":
+        return "(FMapSvc (SWApplyFn (WSkip %s)) %s)" % (g_res(x[1]), g_fexpr(x[2]))
+    if h == "FI":
+        return "(FMapInitErr %s %s)" % (g_mapper(x[1]), g_fexpr(x[2]))
+    if h == "FC":
+        return "(FMapConfig %s %s)" % (g_mapper(x[1]), g_fexpr(x[2]))
+    if h == "FU":
+        return "(FUnitConfig %s)" % g_fexpr(x[1])
+    if h == "FG":
+        return "(FApplyCfg %s {| c_id := %s; c_k := %s; c_fail := %s |})" % (g_sexpr(x[1]), gn(x[2]), gn(x[3]), g_optz(x[4]))
+    if h == "FH":
+        return "(FApplyCfgFactory %s {| c_id := %s; c_k := %s; c_fail := %s |})" % (g_fexpr(x[1]), gn(x[2]), gn(x[3]), g_optz(x[4]))
+    if h == "FT":
+        mie = "None" if x[5] == "-" else "(Some %s)" % g_mapper(x[5])
+        t = "{| t_id := %s; t_k := %s; t_fail := %s; t_wf := WPrePost %s %s; t_rc := %s; t_mie := %s |}" % (
+            gn(x[1]), gn(x[2]), g_optz(x[3]), g_mapper(x[6]), g_mapper(x[7]), "true" if x[4] == "1" else "false", mie)
+        return "(FApplyTransform %s %s)" % (t, g_fexpr(x[8]))
+    if h == "FW":
+        return "(FWrap %s %s)" % ({"bx": "FWBoxed", "rc": "FWRc", "ar": "FWArc"}[x[1]], g_fexpr(x[2]))
+    raise ValueError(h)
+
+
+KIND = {"o": "KOk", "e": "KErr", "a": "KPre", "z": "KPost", "c": "KCfg", "i": "KInit", "t": "KTInit"}
+
+
+def g_event(e):
+    m = re.match(r"r(\d+)@(\d+):(\S+)$", e)
+    if m:
+        return "EvReady %s %s %s" % (gn(m.group(1)), gn(m.group(2)), g_rans(m.group(3)))
+    m = re.match(r"c(\d+)\((-?\d+)\)$", e)
+    if m:
+        return "EvCall %s %s" % (gn(m.group(1)), gz(m.group(2)))
+    m = re.match(r"f(\d+)@(\d+):(\S+)$", e)
+    if m:
+        return "EvPoll %s %s %s" % (gn(m.group(1)), gn(m.group(2)), g_pres(m.group(3)))
+    m = re.match(r"x(\d+)@(\d+)$", e)
+    if m:
+        return "EvPollDone %s %s" % (gn(m.group(1)), gn(m.group(2)))
+    m = re.match(r"m(\w)([+*=#]-?\d+)\((-?\d+)\)$", e)
+    if m:
+        return "EvMap %s %s %s" % (KIND[m.group(1)], g_mapper(m.group(2)), gz(m.group(3)))
+    m = re.match(r"n(\d+)\((u|-?\d+)\)$", e)
+    if m:
+        return "EvNew %s %s" % (gn(m.group(1)), g_cfg(m.group(2)))
+    m = re.match(r"i(\d+)@(\d+):([pd])$", e)
+    if m:
+        return "EvInit %s %s %s" % (gn(m.group(1)), gn(m.group(2)), "true" if m.group(3) == "p" else "false")
+    m = re.match(r"y(\d+)@(\d+)$", e)
+    if m:
+        return "EvInitDone %s %s" % (gn(m.group(1)), gn(m.group(2)))
+    m = re.match(r"t(\d+)$", e)
+    if m:
+        return "EvNewT %s" % gn(m.group(1))
+    m = re.match(r"g(\d+)\((u|-?\d+)\)$", e)
+    if m:
+        return "EvCfgFn %s %s" % (gn(m.group(1)), g_cfg(m.group(2)))
+    raise ValueError(e)
+
+
+def g_events(evs):
+    return "[" + "; ".join(g_event(e) for e in evs) + "]"
+
+
+def g_obs(o):
+    kind, evs, res = o
+    if kind == "R":
+        return "ObsReady %s %s" % (g_rans(res), g_events(evs))
+    r, _, n = res.partition("/")
+    return "ObsCall %s %s %s" % (g_pres(r), gn(n), g_events(evs))
+
+
+def g_ops(ops):
+    return "[" + "; ".join("OReady" if o == "R" else "OCall %s" % gz(o[1:]) for o in ops.split()) + "]"
+
+
+def to_coq_svc(case, model):
+    try:
+        es, ops = split_case(case)
+        obs = parse_trace(split_model(model)[0])
+        if obs is None:
+            return None
+        return ("run_ops 40 %s 0 %s" % (g_sexpr(sx_parse(es)), g_ops(ops)), "[" + "; ".join(g_obs(o) for o in obs) + "]")
+    except Exception:
+        return None
+
+
+def to_coq_fac(case, model):
+    try:
+        fs, cfg, ops = split_case(case)
+        obs = parse_trace(split_model(model)[0])
+        if not obs:
+            return None
+        _, evs, res = obs[0]
+        r, _, n = res.partition("/")
+        tag = {"P": 0, "O": 1, "X": 3}.get(r, 2)
+        err = int(r[1:]) if tag == 2 else 0
+        rhs = "(%s, %s, %s, %s, [%s])" % (gz(tag), gz(err), gn(n), g_events(evs), "; ".join(g_obs(o) for o in obs[1:]))
+        return ("fview (run_fac 40 %s %s %s)" % (g_fexpr(sx_parse(fs)), g_cfg(cfg), g_ops(ops)), rhs)
+    except Exception:
+        return None
+
+
 def streams(ctx):
     n = 6000 if ctx.tier == "quick" else 150000
-    cases = exhaustive_small() + [gen_svc_case(ctx.rng, False) for _ in range(n)]
+    cases = exhaustive_small(ctx.tier != "quick") + [gen_svc_case(ctx.rng, False) for _ in range(n)]
     s1 = Stream("svc11", "svc", cases, monitor=monitor_svc, nontrivial=nontrivial_call, shrink=shrink_svc,
-                compare=compare, finding_key=lambda c, i, m: why_svc(c, i, m),
+                compare=compare, to_coq=to_coq_svc, coq_imports=COQ_IMPORTS, finding_key=lambda c, i, m: why_svc(c, i, m),
                 describe="%d structured + %d random service trees, ops mostly calls" % (len(cases) - n, n))
     nf = 6000 if ctx.tier == "quick" else 150000
     ex = exhaustive_fac_small()
     fcases = ex + [gen_fac_case(ctx.rng, False) for _ in range(nf)]
     s2 = Stream("fac11", "fac", fcases, monitor=monitor_fac, nontrivial=nontrivial_fac, shrink=shrink_fac,
-                compare=compare, finding_key=lambda c, i, m: why_fac(c, i, m),
+                compare=compare, to_coq=to_coq_fac, coq_imports=COQ_IMPORTS, finding_key=lambda c, i, m: why_fac(c, i, m),
                 describe="%d structured + %d random factory trees, then ops on the built service" % (len(ex), nf))
     return [s1, s2]
